@@ -28,7 +28,7 @@ type Mismatch struct {
 //	locks                  a lock is still held at a quiescent point      C18
 var owners = map[string][]string{
 	"alloc+":      {"C06", "C19", "C03"},
-	"alloc-":      {"C06", "C03"},
+	"alloc-":      {"C06", "C03", "C19"}, // (C19: an Allocate success reports the lifetime actually in force)
 	"alloc~":      {"C06", "C03"},
 	"perm+":       {"C07", "C01", "C02", "C03", "C06"},
 	"perm-":       {"C07", "C03"},
@@ -86,8 +86,8 @@ func OwnedBy(m Mismatch, a map[string]any, prop string) bool {
 	if m.Kind == "nonce" && prop == "C03" {
 		return true
 	}
-	if strings.HasPrefix(m.Kind, "relaygen") && prop == "C20" {
-		return true
+	if strings.HasPrefix(m.Kind, "relaygen") && (prop == "C20" || ((prop == "C19" || prop == "C04") && m.Kind == "relaygen.shared")) {
+		return true // (C19: the relayed address of an Allocate success is one no other live allocation has; C04: what arrives there goes to its owner only)
 	}
 	if strings.HasPrefix(m.Kind, "framer") && (prop == "C10" || (prop == "C09" && m.Kind == "framer.spin")) {
 		return true
@@ -114,7 +114,7 @@ func OwnedBy(m Mismatch, a map[string]any, prop string) bool {
 
 		return false
 	}
-	if strings.HasPrefix(m.Kind, "txn") && prop == "C12" {
+	if strings.HasPrefix(m.Kind, "txn") && (prop == "C12" || (prop == "C18" && m.Kind == "txn.hang")) {
 		return true
 	}
 	if strings.HasPrefix(m.Kind, "steps.") {
